@@ -57,23 +57,22 @@ theorem niceTail_flat (plan : List (Nat × EMode)) (pads : List Nat) (hp : NiceT
         unfold AsciiCw at this
         omega
 
-/-- **The segment structure of every successful encoding** (plans within `PlanOK`). -/
-theorem run_segments (pre out0 : List Nat) (list : List Sym) (body cw : List Nat) (plan : List (Nat × EMode)) (sym : Sym)
-    (hb : ByteList body) (hplan : PlanOK plan) (h : run list pre body plan = .ok (cw, sym)) :
-    ∃ (segs : List Seg) (pads : List Nat),
-      cw = pre ++ flatCw segs ++ pads ∧ (∀ g ∈ segs, SegOK plan g) ∧ NiceTail pads ∧
-      ∀ (k : Nat) (hk : k < segs.length),
-        decRun .ascii { rest := cw.drop pre.length, eaten := pre.length, out := out0, ecis := [] } =
-        decRun .ascii { rest := flatCw (segs.drop k) ++ pads, eaten := pre.length + (flatCw (segs.take k)).length,
-                        out := out0 ++ body.take segs[k].start, ecis := [] } := by
-  obtain ⟨sE, hmain, hsym, hpad⟩ := run_unfoldP list pre body cw plan sym h
-  have mi0 : MI pre out0 list body { input := body, pos := 0, mode := .ascii, plan := plan, newMode := none, cw := pre, list := list } :=
-    ⟨rfl, rfl, Nat.zero_le _, by intro c hc; simp at hc,
-      .normal (sync_init pre out0 body) (Or.inl ⟨rfl, rfl⟩) hplan (fun hne => absurd rfl hne)⟩
-  have tr0 : TR pre out0 list body plan { input := body, pos := 0, mode := .ascii, plan := plan, newMode := none, cw := pre, list := list } [] :=
-    ⟨by simp [flatCw], by intro g hg; simp at hg, pv_init plan .ascii, by intro k hk; simp at hk⟩
-  obtain ⟨miE, hmf⟩ := mainLoop_MI pre out0 list body hb _ _ 0 sE hmain mi0
-  obtain ⟨segs, tr⟩ := mainLoop_TR pre out0 list body hb plan _ _ 0 sE [] hmain mi0 tr0
+/-- what `run_segments` states about one particular list of segments -/
+def SegmentsOK (pre out0 body cw : List Nat) (plan : List (Nat × EMode)) (segs : List Seg) (pads : List Nat) : Prop :=
+  cw = pre ++ flatCw segs ++ pads ∧ (∀ g ∈ segs, SegOK plan g) ∧ NiceTail pads ∧
+  ∀ (k : Nat) (hk : k < segs.length),
+    decRun .ascii { rest := cw.drop pre.length, eaten := pre.length, out := out0, ecis := [] } =
+    decRun .ascii { rest := flatCw (segs.drop k) ++ pads, eaten := pre.length + (flatCw (segs.take k)).length,
+                    out := out0 ++ body.take segs[k].start, ecis := [] }
+
+/-- any list of segments that satisfies the trace invariant at the end of the main loop, followed
+by the padding, has the segment structure -/
+theorem segments_of_TR (pre out0 : List Nat) (list : List Sym) (body cw : List Nat) (plan : List (Nat × EMode)) (sym : Sym)
+    (sE : St) (segs : List Seg)
+    (hsym : firstBigEnough list sE.cw.length = some sym)
+    (hpad : addPadding sE.cw (sE.mode == .ascii) (dataCw sym) = some cw)
+    (miE : MI pre out0 list body sE) (hmf : sE.hasMore = false) (tr : TR pre out0 list body plan sE segs) :
+    ∃ pads, SegmentsOK pre out0 body cw plan segs pads := by
   -- the padding
   have hpads : ∃ pads, cw = sE.cw ++ pads ∧ NiceTail pads ∧ (ExactFit list sE.cw.length → pads = []) := by
     cases miE.phase with
@@ -111,7 +110,7 @@ theorem run_segments (pre out0 : List Nat) (list : List Sym) (body cw : List Nat
         unfold DM.Props.C04.padsOf
         rw [if_pos (by omega)]
   obtain ⟨pads, hcw, hnice, hexact⟩ := hpads
-  refine ⟨segs, pads, by rw [hcw, tr.cw], tr.ok, hnice, ?_⟩
+  refine ⟨pads, by rw [hcw, tr.cw], tr.ok, hnice, ?_⟩
   intro k hk
   obtain ⟨b, hs, hb'⟩ := tr.walk k hk
   have hsplit : flatCw segs = flatCw (segs.take k) ++ flatCw (segs.drop k) := by
@@ -130,6 +129,32 @@ theorem run_segments (pre out0 : List Nat) (list : List Sym) (body cw : List Nat
     simpa [flatCw] using h2
   rw [hrest, hs.2.2 _ hlen htail]
   simp
+
+theorem mi_init (pre out0 : List Nat) (list : List Sym) (body : List Nat) (plan : List (Nat × EMode)) (hplan : PlanOK plan) :
+    MI pre out0 list body { input := body, pos := 0, mode := .ascii, plan := plan, newMode := none, cw := pre, list := list } :=
+  ⟨rfl, rfl, Nat.zero_le _, by intro c hc; simp at hc,
+    .normal (sync_init pre out0 body) (Or.inl ⟨rfl, rfl⟩) hplan (fun hne => absurd rfl hne)⟩
+
+theorem tr_init (pre out0 : List Nat) (list : List Sym) (body : List Nat) (plan : List (Nat × EMode)) :
+    TR pre out0 list body plan { input := body, pos := 0, mode := .ascii, plan := plan, newMode := none, cw := pre, list := list } [] :=
+  ⟨by simp [flatCw], by intro g hg; simp at hg, pv_init plan .ascii, by intro k hk; simp at hk⟩
+
+/-- **The segment structure of every successful encoding** (plans within `PlanOK`). -/
+theorem run_segments (pre out0 : List Nat) (list : List Sym) (body cw : List Nat) (plan : List (Nat × EMode)) (sym : Sym)
+    (hb : ByteList body) (hplan : PlanOK plan) (h : run list pre body plan = .ok (cw, sym)) :
+    ∃ (segs : List Seg) (pads : List Nat),
+      cw = pre ++ flatCw segs ++ pads ∧ (∀ g ∈ segs, SegOK plan g) ∧ NiceTail pads ∧
+      ∀ (k : Nat) (hk : k < segs.length),
+        decRun .ascii { rest := cw.drop pre.length, eaten := pre.length, out := out0, ecis := [] } =
+        decRun .ascii { rest := flatCw (segs.drop k) ++ pads, eaten := pre.length + (flatCw (segs.take k)).length,
+                        out := out0 ++ body.take segs[k].start, ecis := [] } := by
+  obtain ⟨sE, hmain, hsym, hpad⟩ := run_unfoldP list pre body cw plan sym h
+  have mi0 := mi_init pre out0 list body plan hplan
+  have tr0 := tr_init pre out0 list body plan
+  obtain ⟨miE, hmf⟩ := mainLoop_MI pre out0 list body hb _ _ 0 sE hmain mi0
+  obtain ⟨segs, tr⟩ := mainLoop_TR pre out0 list body hb plan _ _ 0 sE [] hmain mi0 tr0
+  obtain ⟨pads, hp⟩ := segments_of_TR pre out0 list body cw plan sym sE segs hsym hpad miE hmf tr
+  exact ⟨segs, pads, hp⟩
 
 /-- **C13 (encoder half).** Every latch codeword at a segment start is the latch of a mode named
 by the plan; no latch codeword occurs inside a segment written in ASCII mode. -/
